@@ -891,8 +891,8 @@ class HistogramBase(abc.ABC):
         return new
 
     def __radd__(self, other):
-        if other == 0:  # Enable sum()
-            return self
+        if np.isscalar(other) and other == 0:  # Enable sum()
+            return self.copy()
         return self + other
 
     def __iadd__(self, other):
